@@ -154,6 +154,49 @@ def snapshot(las):
 CASEF = {"preserve": lambda s: s, "upper": str.upper, "lower": str.lower}
 
 
+def compare(pt, before, after, text, V, tag):
+    vio = []
+    cf = CASEF[pt["case"]]
+    strt_unit = None
+    for name in SECTIONS:
+        want, got = before[name], after[name]
+        if len(want) != len(got):
+            vio.append(V(tag + "item-count:" + name, [w[0] for w in want], [g[0] for g in got], text))
+            continue
+        for pos, (w, g) in enumerate(zip(want, got)):
+            wm, wu, wv, wd = w
+            gm, gu, gv, gd = g
+            if gm != cf(wm):
+                vio.append(V(tag + "mnemonic:" + name, cf(wm), gm, text))
+                break
+            special = name == "Well" and wm in ("STRT", "STOP", "STEP")
+            if name == "Version" and wm in ("VERS", "WRAP"):
+                if wm == "VERS" and canon.value_tag(gv, "numeric") != ("num", float(pt["ver"])):
+                    vio.append(V(tag + "vers-value", pt["ver"], gv, text))
+                continue
+            if special:
+                continue
+            if name == "Curves" and pos == 0:
+                # first-curve unit alignment is permitted
+                pass
+            elif gu != wu:
+                vio.append(V(tag + "unit:" + name, {"item": wm, "unit": wu, "value": wv}, {"unit": gu, "value": gv}, text))
+                break
+            wt = canon.value_tag(wv, "numeric")
+            gt = canon.value_tag(gv, "numeric")
+            if wt != gt:
+                empty_with_unit = (wv == "" and wu != "" and gt == ("num", 0.0))
+                if not empty_with_unit:
+                    vio.append(V(tag + "value:" + name, {"item": wm, "unit": wu, "value": wv, "descr": wd}, {"unit": gu, "value": gv, "descr": gd}, text))
+                    break
+            if gd != wd:
+                vio.append(V(tag + "descr:" + name, {"item": wm, "descr": wd, "value": wv}, {"descr": gd, "value": gv}, text))
+                break
+    if after["Other"] != before["Other"]:
+        vio.append(V(tag + "other-text", before["Other"], after["Other"], text))
+    return vio
+
+
 def check_point(pt):
     las = build(pt)
     before = snapshot(las)
@@ -176,46 +219,9 @@ def check_point(pt):
         back = lasio.read(text, mnemonic_case=pt["case"])
     except Exception as e:
         return [V("read-raises", "own output readable", "%s: %s" % (type(e).__name__, str(e)[:160]), text)], nontriv, "read-raise", {}, 2
-    vio = []
     cf = CASEF[pt["case"]]
     after = snapshot(back)
-    strt_unit = None
-    for name in SECTIONS:
-        want, got = before[name], after[name]
-        if len(want) != len(got):
-            vio.append(V("item-count:" + name, [w[0] for w in want], [g[0] for g in got], text))
-            continue
-        for pos, (w, g) in enumerate(zip(want, got)):
-            wm, wu, wv, wd = w
-            gm, gu, gv, gd = g
-            if gm != cf(wm):
-                vio.append(V("mnemonic:" + name, cf(wm), gm, text))
-                break
-            special = name == "Well" and wm in ("STRT", "STOP", "STEP")
-            if name == "Version" and wm in ("VERS", "WRAP"):
-                if wm == "VERS" and canon.value_tag(gv, "numeric") != ("num", float(pt["ver"])):
-                    vio.append(V("vers-value", pt["ver"], gv, text))
-                continue
-            if special:
-                continue
-            if name == "Curves" and pos == 0:
-                # first-curve unit alignment is permitted
-                pass
-            elif gu != wu:
-                vio.append(V("unit:" + name, {"item": wm, "unit": wu, "value": wv}, {"unit": gu, "value": gv}, text))
-                break
-            wt = canon.value_tag(wv, "numeric")
-            gt = canon.value_tag(gv, "numeric")
-            if wt != gt:
-                empty_with_unit = (wv == "" and wu != "" and gt == ("num", 0.0))
-                if not empty_with_unit:
-                    vio.append(V("value:" + name, {"item": wm, "unit": wu, "value": wv, "descr": wd}, {"unit": gu, "value": gv, "descr": gd}, text))
-                    break
-            if gd != wd:
-                vio.append(V("descr:" + name, {"item": wm, "descr": wd, "value": wv}, {"descr": gd, "value": gv}, text))
-                break
-    if after["Other"] != before["Other"]:
-        vio.append(V("other-text", before["Other"], after["Other"], text))
+    vio = compare(pt, before, after, text, V, "")
     if vio:
         return vio[:3], nontriv, "ok", {}, 2
     # second stage: the object that came out of read() is itself a LASFile with conformant fields -
@@ -240,7 +246,50 @@ def check_point(pt):
             vio.append(V("second-cycle:" + name, [list(map(str, x)) for x in a][:6], [list(map(str, x)) for x in b][:6], text2))
     if again["Other"] != after["Other"]:
         vio.append(V("second-cycle:other-text", after["Other"], again["Other"], text2))
-    return vio[:3], nontriv, "ok", {}, 4
+    if vio or len(pt["items"]) != 2 or pt["items"][0][0] == "<dup>" or pt["items"][1][0] == "<dup>":
+        return vio[:3], nontriv, "ok", {}, 4
+    # third stage: the ORIGINAL object, already written once, has two existing items edited in place (their unit,
+    # value and description are exchanged, so another item is now the widest of its section; nothing is added or
+    # removed) and is written again with the same options
+    sect = las.sections[pt["sec"]]
+    tgt = list(sect)[-2:]
+    (m0, u0, v0, d0), (m1, u1, v1, d1) = pt["items"]
+    if [t.original_mnemonic for t in tgt] != [m0, m1]:
+        return [V("harness", [m0, m1], [t.original_mnemonic for t in tgt])], nontriv, "ok", {}, 4
+    if not (conformant((m0, u1, v1, d1), pt["sec"]) and conformant((m1, u0, v0, d0), pt["sec"])):
+        return vio, nontriv, "ok", {}, 4
+    tgt[0].unit, tgt[0].value, tgt[0].descr = u1, v1, d1
+    tgt[1].unit, tgt[1].value, tgt[1].descr = u0, v0, d0
+    before3 = snapshot(las)
+    try:
+        s3 = io.StringIO()
+        las.write(s3, version=pt["ver"])
+        text3 = s3.getvalue()
+        back3 = lasio.read(text3, mnemonic_case=pt["case"])
+    except Exception as e:
+        return [V("edited-rewrite-raises", "write/read after an in-place edit succeed", "%s: %s" % (type(e).__name__, str(e)[:160]))], nontriv, "ok", {}, 6
+    vio = compare(pt, before3, snapshot(back3), text3, V, "edited-rewrite:")
+    if vio:
+        return vio[:3], nontriv, "ok", {}, 6
+    # fourth stage: a fresh object whose two items start out narrow (no unit, value 'x', no description) is written
+    # once, the items are then given the point's fields in place (every column of the section grows), and it is
+    # written again: the result must be what a first write of the point gives
+    narrow = dict(pt)
+    narrow["items"] = [[m0, "", "x", ""], [m1, "", "x", ""]]
+    las4 = build(narrow)
+    try:
+        las4.write(io.StringIO(), version=pt["ver"])
+        t4 = list(las4.sections[pt["sec"]])[-2:]
+        t4[0].unit, t4[0].value, t4[0].descr = u0, v0, d0
+        t4[1].unit, t4[1].value, t4[1].descr = u1, v1, d1
+        s4 = io.StringIO()
+        las4.write(s4, version=pt["ver"])
+        text4 = s4.getvalue()
+        back4 = lasio.read(text4, mnemonic_case=pt["case"])
+    except Exception as e:
+        return [V("grown-rewrite-raises", "write/read after an in-place edit succeed", "%s: %s" % (type(e).__name__, str(e)[:160]))], nontriv, "ok", {}, 8
+    vio = compare(pt, before, snapshot(back4), text4, V, "grown-rewrite:")
+    return vio[:3], nontriv, "ok", {}, 8
 
 
 def classify(pt, clause, expected, observed):
